@@ -74,7 +74,15 @@ def case(spec):
     # for base > 0 the first block (base-1) is only the predecessor record; heights base..base+T are "the chain"
     chain = chain_all
     d = os.path.join(work, "d")
-    datadir.write_datadir(d, COINS[coin], harness.simple_layout(chain_all))
+    if spec.get("n", 0) % 3 == 1 and len(chain_all) >= 3:
+        # range handling must not depend on which blk file holds a height: out-of-order multi-file layout
+        from .. import layouts
+        lrng = random.Random("C02layout|%s" % spec["n"])
+        kw, _desc, _ = layouts.make_layout(lrng, chain_all, coin, assign=lrng.choice(["random", "round_robin", "reversed"]), nfiles=lrng.randint(2, 4),
+                                           file_order=lrng.choice(["asc", "shuffled"]))
+        datadir.write_datadir(d, COINS[coin], **kw)
+    else:
+        datadir.write_datadir(d, COINS[coin], harness.simple_layout(chain_all))
     v, shapes, counters = [], [], {}
     S = 0 if s is None else s
     tip = chain[-1][0]
